@@ -533,6 +533,32 @@ def tables_certificate(parsed):
     return probs
 
 
+def template_certificate(parsed):
+    """Statement order of the generated next(), as Runtime.v assumes it (read from the dumped token stream):
+    (1) the end-of-input branch of every state sets __done before doing anything else (Runtime.run_state:
+        set_done before the eoi action); (2) every action selected directly (not through backtrack()) is
+        preceded by reset_accepting_state() (Runtime.do_accept: set_last l None before run_action)."""
+    toks = parsed.get("tokens")
+    if not toks:
+        return []
+    t = re.sub(r"\s+", " ", toks)
+    probs = []
+    n1 = n2 = 0
+    for m in re.finditer(r"match self ?\. ?0 ?\. ?next ?\( ?\) ?\{ ?None ?=> ?\{ ?", t):
+        n1 += 1
+        if not re.match(r"self ?\. ?0 ?\. ?__done ?= ?true ?;", t[m.end():m.end() + 40]):
+            probs.append("an end-of-input branch does not start with `self.0.__done = true;`: ...%s" % t[m.end():m.end() + 60])
+            break
+    for m in re.finditer(r"match (\w+_ACTION_\d+) ?\( ?self ?\)", t):
+        n2 += 1
+        before = t[max(0, m.start() - 60):m.start()]
+        if not re.search(r"self ?\. ?0 ?\. ?reset_accepting_state ?\( ?\) ?; ?$", before):
+            probs.append("action %s is called directly without a preceding reset_accepting_state()" % m.group(1))
+            break
+    parsed["template_sites"] = (n1, n2)
+    return probs
+
+
 def flags_certificate(parsed):
     """flags_sound on a dump: flag(t) whenever an edge s -> t has flag(s) or s accepting; initial
     states unflagged is not required. Also precision (only then). Returns problems."""
@@ -566,13 +592,71 @@ def diff_dict(a, b, what):
     return probs
 
 
+def dfa_iso(a, b):
+    """Isomorphism of two deterministic automata (as dumped) from their initial states: same initial
+    flag, accepting list, character keys, range pieces, any / end-of-input transitions, with targets in
+    correspondence. Returns (mapping a-index -> b-index, None) or (None, first mismatch)."""
+    if len(a) != len(b):
+        return None, "%d states vs %d" % (len(a), len(b))
+    mp, rev = {0: 0}, {0: 0}
+    todo = [(0, 0)]
+
+    def link(x, y, what):
+        if x is None or y is None:
+            return None if x is None and y is None else "%s: %r vs %r" % (what, x, y)
+        xi, yi = int(x[1:]), int(y[1:])
+        if xi in mp or yi in rev:
+            return None if mp.get(xi) == yi and rev.get(yi) == xi else "%s: targets do not correspond (%d/%d)" % (what, xi, yi)
+        mp[xi] = yi
+        rev[yi] = xi
+        todo.append((xi, yi))
+        return None
+    while todo:
+        i, j = todo.pop()
+        x, y = a[i], b[j]
+        if x["init"] != y["init"] or x["acc"] != y["acc"]:
+            return None, "state %d/%d: init/accepting %r %r vs %r %r" % (i, j, x["init"], x["acc"], y["init"], y["acc"])
+        if sorted(x["c"]) != sorted(y["c"]):
+            return None, "state %d/%d: character keys %r vs %r" % (i, j, sorted(x["c"]), sorted(y["c"]))
+        if [(lo, hi) for lo, hi, _ in x["r"]] != [(lo, hi) for lo, hi, _ in y["r"]]:
+            return None, "state %d/%d: range pieces differ" % (i, j)
+        for c in sorted(x["c"]):
+            e = link(x["c"][c], y["c"][c], "state %d/%d char %d" % (i, j, c))
+            if e:
+                return None, e
+        for (lo, hi, t), (_, _, u) in zip(x["r"], y["r"]):
+            e = link(t, u, "state %d/%d range %d-%d" % (i, j, lo, hi))
+            if e:
+                return None, e
+        for k in ("a", "z"):
+            e = link(x[k], y[k], "state %d/%d %s" % (i, j, k))
+            if e:
+                return None, e
+    if len(mp) != len(a):
+        return None, "unreachable states: %d of %d reached" % (len(mp), len(a))
+    return mp, None
+
+
 def compare_artifacts(impl, model, stages=None):
-    """impl/model: parsed dumps. Returns {stage: [problems]} for stages that differ."""
+    """impl/model: parsed dumps. Returns {stage: [problems]} for stages that differ.
+    Gate for the automata: the implementation's DFA of every rule set / context is isomorphic to the model's
+    (whose NFA and DFA are proved correct), its flags agree under that isomorphism, and the certificates
+    hold on its own dump. Differences of NFA numbering or of DFA state order alone are not reported."""
     out = {}
 
     def add(stage, probs):
         if probs and (stages is None or stage in stages):
             out.setdefault(stage, []).extend(probs[:6])
+    isos = {}
+    all_iso = len(impl["ctxs"]) == len(model["ctxs"]) and len(impl["rulesets"]) == len(model["rulesets"])
+    for kind in ("ctxs", "rulesets"):
+        for i, (a, b) in enumerate(zip(impl[kind], model[kind])):
+            mp, why = dfa_iso(a["dfa"], b["dfa"])
+            isos[(kind, i)] = mp
+            if mp is None:
+                all_iso = False
+                add("dfa", ["%s[%d] DFA not isomorphic to the model's: %s" % (kind, i, why)])
+    impl["harmless_differences"] = []
     if len(impl["ctxs"]) != len(model["ctxs"]):
         add("ctx-count", ["%d right contexts vs model %d" % (len(impl["ctxs"]), len(model["ctxs"]))])
     if len(impl["rulesets"]) != len(model["rulesets"]):
@@ -580,35 +664,89 @@ def compare_artifacts(impl, model, stages=None):
     for kind in ("ctxs", "rulesets"):
         for i, (a, b) in enumerate(zip(impl[kind], model[kind])):
             nm = "%s[%d]" % (kind, i)
+            nfa_probs, lab_probs = [], []
             if a["nfa"] != b["nfa"]:
                 for s, (x, y) in enumerate(zip(a["nfa"], b["nfa"])):
                     if x != y:
-                        add("nfa", ["%s NFA state %d: impl %r model %r" % (nm, s, x, y)])
+                        nfa_probs.append("%s NFA state %d: impl %r model %r" % (nm, s, x, y))
                         break
                 else:
-                    add("nfa", ["%s NFA sizes differ: %d vs %d" % (nm, len(a["nfa"]), len(b["nfa"]))])
+                    nfa_probs.append("%s NFA sizes differ: %d vs %d" % (nm, len(a["nfa"]), len(b["nfa"])))
             try:
-                add("dfa", diff_dict(canon_dfa(a["dfa"], a["map"]), canon_dfa(b["dfa"], b["map"]), nm + " DFA"))
+                lab_probs = diff_dict(canon_dfa(a["dfa"], a["map"]), canon_dfa(b["dfa"], b["map"]), nm + " DFA")
             except (KeyError, IndexError) as e:
-                add("dfa", ["%s DFA cannot be labelled: %r" % (nm, e)])
+                lab_probs = ["%s DFA cannot be labelled: %r" % (nm, e)]
+            if isos.get((kind, i)) is not None:
+                # same automaton up to the names of states: numbering / labelling differences are harmless
+                impl["harmless_differences"] += nfa_probs[:1] + lab_probs[:1]
+            else:
+                add("nfa", nfa_probs)
+                add("dfa", lab_probs)
     try:
-        ja, _ = canon_joined(impl)
-        jb, _ = canon_joined(model)
-        pj = diff_dict(ja, jb, "joined DFA")
-        add("flags", [p for p in pj if "differs in bt:" in p or ",bt" in p or "bt," in p])
-        add("joined", [p for p in pj if "bt" not in p.split("differs in")[-1].split(":")[0]])
-        sa, _ = canon_simplified(impl)
-        sb, _ = canon_simplified(model)
-        add("simplified", diff_dict(sa, sb, "simplified DFA"))
+        if all_iso and impl["joined"] is not None and model["joined"] is not None:
+            # joined and simplified automata under the isomorphisms of the rule-set DFAs
+            jm, off_a, off_b = {}, 0, 0
+            for k in range(len(impl["rulesets"])):
+                for x, y in isos[("rulesets", k)].items():
+                    jm[off_a + x] = off_b + y
+                off_a += len(impl["rulesets"][k]["dfa"])
+                off_b += len(model["rulesets"][k]["dfa"])
+            ja, jb = impl["joined"], model["joined"]
+            if len(ja) != len(jb) or len(ja) != off_a:
+                add("joined", ["joined DFA sizes: impl %d model %d, rule sets %d" % (len(ja), len(jb), off_a)])
+            else:
+                tg = lambda t: None if t is None else jm[int(t[1:])]
+                for x in range(len(ja)):
+                    A, B = ja[x], jb[jm[x]]
+                    if A["bt"] != B["bt"]:
+                        add("flags", ["joined DFA state %d (model %d): backtrack flag impl %r model %r" % (x, jm[x], A["bt"], B["bt"])])
+                    if (A["init"], A["acc"], sorted(jm[p] for p in A["preds"])) != (B["init"], B["acc"], sorted(B["preds"])) \
+                            or {c: tg(t) for c, t in A["c"].items()} != {c: int(t[1:]) for c, t in B["c"].items()} \
+                            or [(lo, hi, tg(t)) for lo, hi, t in A["r"]] != [(lo, hi, int(t[1:])) for lo, hi, t in B["r"]] \
+                            or tg(A["a"]) != (None if B["a"] is None else int(B["a"][1:])) \
+                            or tg(A["z"]) != (None if B["z"] is None else int(B["z"][1:])):
+                        add("joined", ["joined DFA state %d differs from the model's state %d" % (x, jm[x])])
+                # simplified: kept states in order on both sides
+                def kept(j):
+                    return [i for i, st in enumerate(j) if not (not st["c"] and not st["r"] and st["a"] is None and st["z"] is None and not st["init"])]
+                ka, kb = kept(ja), kept(jb)
+                sa, sb = impl["simplified"], model["simplified"]
+                if len(ka) != len(sa) or len(kb) != len(sb) or len(sa) != len(sb):
+                    add("simplified", ["simplified DFA sizes: impl %d (kept %d) model %d (kept %d)" % (len(sa), len(ka), len(sb), len(kb))])
+                else:
+                    pos_b = {j: i for i, j in enumerate(kb)}
+                    sm = {i: pos_b.get(jm[j]) for i, j in enumerate(ka)}
+                    stg = lambda t: t if (t is None or t.startswith("A[")) else sm[int(t[1:])]
+                    btg = lambda t: t if (t is None or t.startswith("A[")) else int(t[1:])
+                    for x in range(len(sa)):
+                        if sm[x] is None:
+                            add("simplified", ["simplified state %d has no counterpart in the model" % x])
+                            continue
+                        A, B = sa[x], sb[sm[x]]
+                        if (A["init"], A["bt"], A["acc"]) != (B["init"], B["bt"], B["acc"]) \
+                                or {c: stg(t) for c, t in A["c"].items()} != {c: btg(t) for c, t in B["c"].items()} \
+                                or [(lo, hi, stg(t)) for lo, hi, t in A["r"]] != [(lo, hi, btg(t)) for lo, hi, t in B["r"]] \
+                                or stg(A["a"]) != btg(B["a"]) or stg(A["z"]) != btg(B["z"]):
+                            add("simplified", ["simplified DFA state %d differs from the model's state %d" % (x, sm[x])])
+        else:
+            ja, _ = canon_joined(impl)
+            jb, _ = canon_joined(model)
+            pj = diff_dict(ja, jb, "joined DFA")
+            add("flags", [p for p in pj if "differs in bt:" in p or ",bt" in p or "bt," in p])
+            add("joined", [p for p in pj if "bt" not in p.split("differs in")[-1].split(":")[0]])
+            sa, _ = canon_simplified(impl)
+            sb, _ = canon_simplified(model)
+            add("simplified", diff_dict(sa, sb, "simplified DFA"))
     except Broken as e:
         add("joined", [str(e)])
-    except (KeyError, IndexError, ValueError) as e:
-        add("joined", ["cannot label joined/simplified DFA: %r" % (e,)])
+    except (KeyError, IndexError, ValueError, TypeError) as e:
+        add("joined", ["cannot compare joined/simplified DFA: %r" % (e,)])
     try:
         add("dispatch", ["impl: " + p for p in dispatch_certificate(impl)])
         add("dispatch", ["model: " + p for p in dispatch_certificate(model)])
         add("flags", ["impl: " + p for p in flags_certificate(impl)])
         add("tables", ["impl: " + p for p in tables_certificate(impl)])
+        add("templates", ["impl: " + p for p in template_certificate(impl)])
     except (KeyError, IndexError, ValueError, TypeError) as e:
         add("dispatch", ["certificate cannot be evaluated: %r" % (e,)])
     return out
